@@ -983,7 +983,7 @@ class Interp(object):
             ov = n.get('ov') or []
             alist = args[1:] if (k == 'CXXOperatorCallExpr' and n.get('rec')) else args
             for a, pt in zip(alist, ov):
-                if pt.strip().endswith('&') and not pt.strip().startswith('const '):
+                if _is_mutable_ref(pt):
                     vals.append(self.lval_or_tmp(fn, a, env))
                 else:
                     vals.append(self.rvalue(fn, a, env))
@@ -1027,6 +1027,19 @@ def _pycmp(op, x, y):
 
 
 # ------------------------------------------------------------------------------------------
+def _is_mutable_ref(pt):
+    """`T &` with T not const at top level: `const char *&` is a mutable reference (to a pointer to const)"""
+    pt = pt.strip()
+    if not pt.endswith('&') or pt.endswith('&&'):
+        return False
+    t = pt[:-1].strip()
+    if t.endswith('*'):
+        return True
+    if t.endswith('const'):
+        return False
+    return not t.startswith('const ')
+
+
 def explore(P, run, boxes, max_boxes=200000):
     """run(interp) -> result on a box (may raise Split).  boxes: initial list of boxes (lists of (lo,hi)).
     yields (box, result); Unsupported / OutOfBounds propagate."""
